@@ -306,14 +306,20 @@ def mutate_value(
 
     # If there are any left-over attributes to apply to our value, we do so here.
     if value is not None and value is not MISSING and attrs:
-        if not mutate_safe:
+        # Attributes given as `MISSING` or `UNCHANGED` are to be left as they
+        # are; if nothing else remains there is nothing to do (and to copy).
+        remaining_attrs = {
+            attr: attr_value
+            for attr, attr_value in attrs.items()
+            if attr not in used_attrs
+            and attr_value is not MISSING
+            and attr_value is not UNCHANGED
+        }
+        if remaining_attrs and not mutate_safe:
             value = protect_via_deepcopy(value)
             mutate_safe = True
-        for attr, attr_value in attrs.items():
-            if attr in used_attrs:
-                continue
-            if attr_value is not MISSING:
-                _setattr_mutate_safe(value, attr, attr_value, inplace=inplace)
+        for attr, attr_value in remaining_attrs.items():
+            _setattr_mutate_safe(value, attr, attr_value, inplace=inplace)
     elif attrs:
         raise ValueError("Cannot use attrs on a missing value without a constructor.")
 
